@@ -52,8 +52,9 @@ theorem QSame.inv {cfg : Cfg} {d : DST} {A Lmax : Nat} {oa : List Args} {b : Boo
    by rw [h.p.isOpen, h.p.offc, h.p.at_]; exact hi.oc, by rw [h.p.isOpen, h.p.at_, h.p.len]; exact hi.cl,
    h.en.trans hi.en, h.tg.trans hi.tg, h.p.oa.trans hi.hoa, by rw [h.p.sb]; exact hi.sb⟩
 
-theorem QSame.ev (s : St) (e : Ev) (h : Neutral e := by exact ⟨fun _ => rfl, fun _ _ => rfl⟩) : QSame s (s.ev e) :=
-  ⟨PSame.ev s e h, rfl, rfl⟩
+theorem QSame.ev (s : St) (e : Ev) (h : Neutral e := by exact ⟨fun _ => rfl, fun _ _ => rfl⟩)
+    (h2 : ∀ L, StoreIn L e := by intro _; trivial) : QSame s (s.ev e) :=
+  ⟨PSame.ev s e h h2, rfl, rfl⟩
 
 /-- the invariant does not look at the log -/
 theorem QInv.ev {cfg : Cfg} {d : DST} {A Lmax : Nat} {oa : List Args} {b : Bool} {s : St} (hi : QInv cfg d A Lmax oa b s)
@@ -212,8 +213,8 @@ theorem cbOpen_qinv (b : Bool) (s : St) (hi : QInv cfg d A Lmax oa b s) :
 def QPlat (cfg : Cfg) (d : DST) (A Lmax : Nat) (oa : List Args) (p : Plat) : Prop :=
   p.toggles = [] ∧ p.openArgs = oa ∧ ∀ x ∈ p.setBufs, GoodBuf cfg d A Lmax oa x.2
 
-theorem QInv.ofClosed {cfg : Cfg} {d : DST} {A Lmax : Nat} {oa : List Args} {s' : St} {L : Nat}
-    (h : PClosed L (QPlat cfg d A Lmax oa) true s') (hg : GoodBuf cfg d A Lmax oa L) :
+theorem QInv.ofClosed {cfg : Cfg} {d : DST} {A Lmax : Nat} {oa : List Args} {s0 s' : St} {L : Nat}
+    (h : PClosed L (QPlat cfg d A Lmax oa) true s0 s') (hg : GoodBuf cfg d A Lmax oa L) :
     QInv cfg d A Lmax oa true s' ∧ s'.c.packetIsOpen = false :=
   ⟨⟨h.nh, by rw [h.len]; exact hg, by rw [h.pkt, h.len], by rw [h.at_, h.len]; exact Nat.le_refl _,
     fun x => by rw [h.isOpen] at x; simp at x, fun x => by rw [h.isOpen] at x; simp at x,
